@@ -154,6 +154,8 @@ def c04(ctx):
         ctx.model_check("BsTreeNodesMC", "BsTreeNodesMC%s.cfg" % ("_deep" if ctx.tier == "thorough" else ""), workers=8, xmx="10g")
         ctx.model_check("BsTreeNodesMC", "BsTreeNodesMC_desc.cfg", workers=8, xmx="10g")
         ctx.model_check("BsTreeNodesMC", "BsTreeNodesMC_kf.cfg", expect_violation="Simulates")
+        # binding A: every behaviour of the spec over upsert/delete/get to depth 4-5 stepped through the real tree
+        return vlib.binding_a(ctx, "BsTreeGen", ["BsTreeGen_1.cfg", "BsTreeGen_2.cfg"], "bstree", "tree", "BsTreeTrace")
     return seq_container(ctx, "bstree", "BsTreeTrace", [("BsTreeMC", "BsTreeMC.cfg")],
                          depth=dict(quick=5, thorough=6), shards=12, after=after,
                          kf_controls=[("BsTreeMC", "BsTreeMC_kf.cfg", "SizeIsCount")])
@@ -168,6 +170,8 @@ def c10(ctx):
         ctx.model_check("BTreeNodesMC", "BTreeNodesMC_orders.cfg", workers=8, xmx="12g")
         design_layer(ctx, "BTreeNodesTrace", [f for f in files if ".lin." not in f] + [f for f in files if ".lin." in f][:1],
                      "design_layer_btree_nodes")
+        # binding A: every behaviour of the spec over put/remove/get to depth 4-5 stepped through the real tree
+        return vlib.binding_a(ctx, "BTreeGen", ["BTreeGen_1.cfg", "BTreeGen_2.cfg"], "btree", "tree", "BTreeTrace")
     return seq_container(ctx, "btree", "BTreeTrace", [("BTreeMC", "BTreeMC.cfg")],
                          depth=dict(quick=5, thorough=6), shards=12, after=after)
 
@@ -191,6 +195,8 @@ def c09(ctx):
         # Trie.tla for every put sequence over 12 keys; without the isValid test (the defect repaired by a409422) they do not
         ctx.model_check("TSTMC", "TSTMC%s.cfg" % ("_deep" if ctx.tier == "thorough" else ""), workers=8, xmx="10g")
         ctx.model_check("TSTMC", "TSTMC_kf.cfg", expect_violation="IsMap")
+        # binding A: every behaviour of the spec over put and the queries as calls, depth 4
+        return vlib.binding_a(ctx, "TrieGen", ["TrieGen_1.cfg"], "trie", "tree", "TrieTrace")
     return seq_container(ctx, "trie", "TrieTrace", [("TrieMC", "TrieMC.cfg")],
                          depth=dict(quick=4, thorough=5), shards=12, after=after,
                          variant_of=lambda f: "rnd" if ".rnd." in f else "lin" if ".lin." in f else ("abc" if ".abc." in f else "tree"))
